@@ -264,6 +264,67 @@ func c13Scenarios(disk bool) []*schedScenario {
 			Ops: []schedOp{ocspLookup(0, 0), ocspLookup(0, 0), ocspLookup(1, 0)},
 		})
 	}
+	if !disk {
+		// s8c: a cached "good" has outlived its lifetime (it was read now and then, so the table still holds it), the
+		// responder meanwhile says "revoked"; two lookups of that certificate arrive at the same time, on one checker and
+		// on two. Whoever refreshes, nobody is served the expired status: both answers are "revoked", as in every
+		// sequential order.
+		oc := newC14Cast()
+		for _, two := range []bool{false, true} {
+			two := two
+			nm := "s8c-ocsp-two-lookups-after-expiry"
+			if two {
+				nm += "-two-checkers"
+			}
+			look := func(inst int) schedOp {
+				return schedOp{Name: fmt.Sprintf("ocsp(V%d,c2)", inst), Fn: func(x *schedCtx) string {
+					ows := x.Vals["ow"].([]*OW)
+					return ows[inst].Lookup(oc.certs[2], world.Chain(oc.certs[2], oc.issuers[2], oc.p.Root)).String()
+				}}
+			}
+			second := 0
+			if two {
+				second = 1
+			}
+			scs = append(scs, &schedScenario{Name: nm, Class: "ocsp",
+				Setup: func(x *schedCtx) {
+					net := world.NewNet()
+					revoked := false
+					net.Routes[oc.urls[2]] = &world.Behaviour{Label: "ocsp", Fn: func(req *httpRequestAlias, body []byte) (int, []byte, error) {
+						r, err := xocsp.ParseRequest(body)
+						if err != nil {
+							return 400, nil, nil
+						}
+						st := xocsp.Good
+						if revoked {
+							st = xocsp.Revoked
+						}
+						return 200, world.BuildOCSP(world.OCSPAnswer{Status: st, Serial: r.SerialNumber, Issuer: oc.caA, Signer: oc.caA, ThisUpdate: vsched.Epoch.Add(-time.Minute)}), nil
+					}}
+					ows := []*OW{NewOW(false, 10*time.Minute, nil, net), NewOW(false, 10*time.Minute, nil, net)}
+					x.Vals["ow"] = ows
+					chain := world.Chain(oc.certs[2], oc.issuers[2], oc.p.Root)
+					if v := ows[0].Lookup(oc.certs[2], chain); v.String() != "OK" {
+						panic("s8c setup: " + v.String() + v.Err)
+					}
+					// read twice within the lifetime (keeps the table entry alive), then let the lifetime end
+					vsched.Advance(6 * time.Minute)
+					ows[0].Lookup(oc.certs[2], chain)
+					revoked = true
+					vsched.Advance(6 * time.Minute)
+				},
+				Ops: []schedOp{look(0), look(second)},
+				Judge: func(obs []string) (string, string) {
+					for i := 0; i < 2; i++ {
+						if obs[i] != "REVOKED" {
+							return "C13|expired-status-served|ocsp", fmt.Sprintf("two lookups 12 minutes after a 'good' with a 10 minute lifetime was cached, the responder says 'revoked': lookup %d answered %s", i+1, obs[i])
+						}
+					}
+					return "", ""
+				},
+			})
+		}
+	}
 	// s10: first use of two different distribution points at the same time (two new entries in the repository map)
 	scs = append(scs, &schedScenario{Name: name("s10-first-use-two-locations"),
 		Setup: func(x *schedCtx) {
